@@ -542,3 +542,19 @@ impl CaptureState {
         self.endn[group_nr] = Some(position);
     }
 }
+
+// Verification hooks (add-only, `cargo kani` only): plain forwarders that give
+// the harness module access to private state; no logic of their own.
+#[cfg(kani)]
+impl ReMatcher<'_> {
+    pub(crate) fn verif_state(&self) -> &RefCell<State> {
+        &self.state
+    }
+}
+
+#[cfg(kani)]
+impl CaptureState {
+    pub(crate) fn verif_new() -> Self {
+        Self::new()
+    }
+}
